@@ -223,7 +223,7 @@ def _decide_path(ctx, ob, res, seen_cex):
         return
     # non-vacuity of the path (the reachability twin)
     if not ctx._model_ok():
-        r, s = core.check(base)
+        r, s = core.seeded_check(ctx, base)
         if r == "unsat":
             r2, s2 = core.check(ctx.assume + ctx.pc)
             if r2 == "sat":
@@ -252,7 +252,8 @@ def _decide_path(ctx, ob, res, seen_cex):
             r, s = "sat", None
             m = ctx.model
         else:
-            r, s = core.check(base + [neg])
+            # concrete head start first: a genuine defect usually fails at a generic point
+            r, s = core.seeded_check(ctx, base + [neg], attempts=2)
             m = s.model() if r == "sat" else None
         if r == "unsat":
             res["discharged"] += 1
